@@ -20,7 +20,8 @@ open MakoModel.Wire MakoModel.Extract
 
 def decKind : String → Option Kind
   | "text" => some .text | "comment" => some .comment | "def" => some .defTag | "block" => some .blockTag
-  | "call" => some .callTag | "page" => some .pageTag | "nscall" => some .nsCall | "ctl" => some .ctl
+  | "call" => some .callTag | "page" => some .pageTag | "nscall" => some .nsCall | "namespace" => some .namespaceTag
+  | "ctl" => some .ctl
   | "ctlend" => some .ctlEnd | "code" => some .code | "expr" => some .expr | "other" => some .other
   | _ => none
 
